@@ -23,13 +23,16 @@ ParseVectors ==
 Utf8Msgs == { <<>>, <<65>>, <<37>>, <<0>>, <<31, 32, 126, 127>>, <<195, 169>>, <<37, 52, 49>>, <<10, 13>>, <<226, 130, 172, 37, 37>>,
               <<32, 65, 32>>, <<240, 159, 152, 128>> }
 Deadlines == { 5, 61, 3600, 86400, 1999999, 2000001, 8640000, 9999998, 10000001, 31536000, 1000000000 }
+Prevs == {-1, 0, 2, 7200, 1000000000}
 MCInit == \/ \E s \in Strs : InitWith([op |-> "pct", in |-> s])
           \/ \E s \in DecStrs : InitWith([op |-> "pctany", in |-> s])
           \/ \E s \in Strs : Len(s) <= 2 /\ InitWith([op |-> "b64", in |-> s])
           \/ \E v \in ParseVectors : InitWith(v)
           \/ \E m \in Utf8Msgs : InitWith([op |-> "grpcmsg_e2e", in |-> m])
-          \/ \E p \in {"connect", "grpc", "grpcweb"}, d \in Deadlines : InitWith([op |-> "deadline_e2e", proto |-> p, secs |-> d, d |-> 0])
-          \/ \E p \in {"connect", "grpc", "grpcweb"} : InitWith([op |-> "nodeadline_e2e", proto |-> p])
+          \* prev: the *connect.Request was already used for a call (-1: it was not; 0: without deadline; n: n seconds)
+          \/ \E p \in {"connect", "grpc", "grpcweb"}, d \in Deadlines, pv \in Prevs :
+                InitWith([op |-> "deadline_e2e", proto |-> p, secs |-> d, d |-> 0, prev |-> pv])
+          \/ \E p \in {"connect", "grpc", "grpcweb"}, pv \in Prevs : InitWith([op |-> "nodeadline_e2e", proto |-> p, prev |-> pv])
           \/ \E c \in Codes : InitWith([op |-> "code", c |-> c])
           \/ \E d \in Durs : InitWith([op |-> "timeout", d |-> d])
 MCSpec == MCInit /\ [][Next]_vars
